@@ -59,6 +59,21 @@ CLAIMED = {
    note=TB + "Modelled: coq/Regex.v (gen_random_string).", ref="5/C20"),
 }
 
+
+for _pid, _title, _what in [
+  ("C01", "valid samples accepted", "every sample labelled valid is accepted by jsonschema Draft202012Validator; non-vacuity when a generated sample is accepted"),
+  ("C02", "invalid samples rejected", "every sample labelled invalid is rejected by the validator"),
+  ("C12", "constraints fenced on both sides", "every single-constraint relaxation (type, declared required property, numeric bound) changes the verdict of some sample"),
+  ("C06", "normalisation preserves acceptance", "extended validator (NOT_enum / NOT_multipleOf) agrees on the schema and on normalize(schema) over an instance grid (equality for full merge, implication for reduced merge)"),
+  ("C16", "normal form and termination", "independent normal-form walker, upstream check_normalized, 10 s alarm / RecursionError on guarded recursion"),
+  ("C08", "grammar samples derivable", "chart-based derivability of every sample, occurrence-wise use of every terminal and range end"),
+]:
+    CLAIMED[_pid] = dict(cat="other", tech="model-implementation correspondence of executable Coq models + independent oracle; Coq theorems in progress",
+        text="Executable Coq models (coq/Normalize.v, coq/JsonGen.v, coq/Grammar.v) of the code path of this property are tied to the implementation on random inputs of the "
+             "property's dialect (canonical graph dumps, generated entries, samples, normal forms); oracle on the implementation alone: " + _what + ". The theorems of "
+             "DESIGN.md section 5 for this property are not closed yet, therefore the level is not claimed as proof.",
+        note=TB + "Modelled: hand-written Gallina models of normalize.py / parse.py / convert.py; integral numeric constants; insertion-ordered sets in the correspondence run.", ref="5/" + _pid)
+
 NOT_YET = {}
 
 def main():
